@@ -259,3 +259,33 @@ func TestVerifC05Mirror(t *testing.T) {
 
 // keep the route import used even if rendering helpers change
 var _ = route.BGPPathType
+
+// TestVerifC05RegressionUnregisterRewritten replays the shrunk failing case of
+// the Unregister defect (fixed by "fix: AdjRIBIn.Unregister withdrew the
+// pre-policy paths from the client") deterministically.
+func TestVerifC05RegressionUnregisterRewritten(t *testing.T) {
+	rec := kit.NewRecorder(t, "C05", c05Rule)
+	for rw := crigRwLocalPref; rw <= crigRwPrepend; rw++ {
+		cas := rec.Case()
+		r := crigNewRig(crigUniverses[0], 1)
+		pol := crigPolicy{Kind: crigPolRewrite, Pattern: r.uni[0], Rw: rw, Val: 64512, Times: 2, NH: kit.V4(0xc6336401, 32)}
+		se := r.addSession(0, crigSessionSpec{Policy: pol})
+		r.addSession(1, crigSessionSpec{Policy: crigPolicy{Kind: crigPolAcceptAll}})
+		se.in.Register(r.rib)
+		se.registered = true
+		a := crigAttrs{NextHop: kit.V4(0xcb007101, 32), ASPath: []crigSeg{{ASNs: []uint32{64600}}}, Tag: 1}
+		cas.Logf("regression: %v; announce %v %v; unregister", se, r.pfxs[0], a)
+		cas.NonTrivial()
+		se.in.AddPath(r.pfxs[0], r.buildPath(se, a, 0))
+		se.model[crigKey{0, 0}] = crigAnn{Attrs: a, Serial: 1}
+		if d := crigDiff(r.locRIBContent(), r.expectedContent()); d != "" {
+			t.Fatalf("after announce:%s", d)
+		}
+		se.in.Unregister(r.rib)
+		se.registered = false
+		cas.Done()
+		if d := crigDiff(r.locRIBContent(), r.expectedContent()); d != "" {
+			t.Fatalf("after Unregister with policy [%v]:%s", pol, d)
+		}
+	}
+}
